@@ -1,4 +1,1 @@
 package verifsim
-
-func genC18(seed int64, tier string) *Plan { return &Plan{Prop: "C18", Engine: "E3", Seed: seed, Cfg: map[string]int{}} }
-func runC18(p *Plan, res *Result)          {}
